@@ -600,7 +600,19 @@ fn gen_input(rng: &mut Rng, max_items: usize, max_len: usize, eof_then_line: boo
                     bytes.extend(gen_sep(rng, true));
                 }
                 match t {
-                    Ty::Str => bytes.extend(gen_str_text(rng, 10).bytes()),
+                    Ty::Str => {
+                        // one string token in twelve is long (a bulk step for long tokens has its own separator search):
+                        // 60..70, 120..135, 250..260 or up to 1100 characters
+                        let maxlen = if rng.chance(1, 12) { *rng.pick(&[70usize, 135, 260, 1100]) } else { 10 };
+                        let mut t = gen_str_text(rng, maxlen);
+                        if maxlen > 10 {
+                            let min = [60usize, 120, 250, 300][[70usize, 135, 260, 1100].iter().position(|&m| m == maxlen).unwrap()];
+                            while t.len() < min {
+                                t.push_str(&gen_str_text(rng, 40));
+                            }
+                        }
+                        bytes.extend(t.bytes())
+                    }
                     Ty::Char => bytes.push(0x21 + rng.below(0x7e - 0x21 + 1) as u8),
                     _ => bytes.extend(gen_int_text(rng, t).bytes()),
                 }
